@@ -51,3 +51,39 @@ mutual
 end
 
 end YangVerif.Shape
+
+/-
+  The verdict on a request path (node/path_slice.go parseUrlPath): segments are looked up level by level in the
+  schema; a step below a leaf, a name the level does not have, keys on something that is not a list, and fewer key
+  components than the list has keys are refused.  Surplus key components are ignored (as the code does).
+-/
+namespace YangVerif.Shape
+
+structure Seg where
+  name : String
+  keys : List String        -- the key components written behind '='; `hasKey` tells "=…" was written at all
+  hasKey : Bool
+deriving Repr, Inhabited
+
+inductive PV | ok | refused
+deriving DecidableEq, Repr, Inhabited
+
+def findKid (n : String) : List SS → Option SS
+  | [] => none
+  | s :: r => if s.name = n then some s else findKid n r
+
+/-- `cur` = the children of the definition the path has reached; `none` = it reached a leaf -/
+def pathVerdict : Option (List SS) → List Seg → PV
+  | _, [] => .ok
+  | none, _ :: _ => .refused                                   -- a step below a leaf
+  | some kids, sg :: rest =>
+    match findKid sg.name kids with
+    | none => .refused                                          -- unknown name
+    | some (.leaf _ _) => if sg.hasKey then .refused else pathVerdict none rest
+    | some (.anyLeaf _) => if sg.hasKey then .refused else pathVerdict none rest
+    | some (.cont _ ks) => if sg.hasKey then .refused else pathVerdict (some ks) rest
+    | some (.list _ keys ks) =>
+      if sg.hasKey && sg.keys.length < keys.length then .refused   -- fewer components than keys
+      else pathVerdict (some ks) rest
+
+end YangVerif.Shape
